@@ -2,7 +2,7 @@
 from ..rules import topology, delivery
 from .common import declare
 
-RULES = ['BOTH-ENDS', 'PER-UPSTREAM-OVERRIDE', 'BELIEF-CONSISTENT', 'WEAK-DOWN', 'STRONG-SINK', 'DESTROY-SUPER', 'FANOUT', 'NONE-SENTINEL', 'EDIT-ATOMIC', 'HOOKS-ONLY']
+RULES = ['BOTH-ENDS', 'PER-UPSTREAM-OVERRIDE', 'BELIEF-CONSISTENT', 'WEAK-DOWN', 'STRONG-SINK', 'DESTROY-SUPER', 'FANOUT', 'NONE-SENTINEL', 'EDIT-ATOMIC', 'HOOKS-ONLY', 'SWAP-ATOMIC']
 FLOORS = {'BOTH-ENDS': 5, 'PER-UPSTREAM-OVERRIDE': 6, 'BELIEF-CONSISTENT': 0, 'WEAK-DOWN': 3, 'STRONG-SINK': 4,
           'DESTROY-SUPER': 3, 'FANOUT': 3, 'EDIT-ATOMIC': 4, 'HOOKS-ONLY': 5}
 
@@ -37,6 +37,8 @@ def run(ctx, R):
     R.run(topology.check_none_sentinel, ctx, R, [c for c in nodes if c.module.name == 'streamz.core'])
     R.run(topology.check_edit_atomic, ctx, R, nodes)
     R.run(topology.check_hooks_only, ctx, R)
+    # an edit made from inside a delivery (a sink that connects another input to the combining node that is emitting)
+    R.run(delivery.check_zip_consume_first, ctx, R)
 
 
 META['level'] += ' connect()/disconnect() reach neither destroy() nor the removal from _global_sinks (call-graph closure), and per-upstream fields are resized unconditionally.'
